@@ -293,9 +293,12 @@ def run_engine(engine, prop, argv=None):
         else:
             log("note: listed finding not re-observed in this run: %s" % k)
     reported = []
-    for k, v in sorted(unknown.items()):
+    max_min = int(os.environ.get("VERIF_MAX_MINIMISE", "3"))
+    for n_rep, (k, v) in enumerate(sorted(unknown.items())):
         mini = getattr(engine, "minimise", None)
-        if mini is not None:
+        # minimisation re-executes cases in fresh processes: do it for the first few distinct
+        # violations only; the others are reported with their original (replayable) case
+        if mini is not None and n_rep < max_min:
             try:
                 v2 = mini(v)
                 if v2 is not None and v2["key"] == v["key"]:
